@@ -433,6 +433,14 @@ class Canon:
         if isinstance(e, ast.Call) and isinstance(e.func, ast.Name) and e.func.id == "int" and len(e.args) == 2 and isinstance(e.args[1], ast.Constant) and e.args[1].value == 16 \
                 and isinstance(e.args[0], ast.Call) and norm(e.args[0].func) in ("binascii.hexlify", "hexlify", "b2h") and len(e.args[0].args) == 1:
             return ast.Call(ast.Attribute(ast.Name("int", ast.Load()), "from_bytes", ast.Load()), [e.args[0].args[0], ast.Constant("big")], [])
+        if isinstance(e, ast.Call) and isinstance(e.func, ast.Name) and e.func.id == "ord" and len(e.args) == 1 and not e.keywords and isinstance(e.args[0], ast.Subscript) \
+                and isinstance(e.args[0].slice, ast.Slice) and e.args[0].slice.step is None:
+            # ord(b[k:k+1]) is b[k] for a byte string (ord(b[:1]) is b[0]); on an empty slice both fail, with different error types
+            sl = e.args[0].slice
+            lo = sl.lower if sl.lower is not None else ast.Constant(0)
+            lo_c, hi_c = (lo.value if isinstance(lo, ast.Constant) else None), (sl.upper.value if isinstance(sl.upper, ast.Constant) else None)
+            if isinstance(lo_c, int) and isinstance(hi_c, int) and hi_c == lo_c + 1 and lo_c >= 0:
+                return ast.Subscript(e.args[0].value, ast.Constant(lo_c), ast.Load())
         if isinstance(e, ast.Call) and isinstance(e.func, ast.Name) and e.func.id == "bool" and len(e.args) == 1 and not e.keywords and self.is_int(e.args[0]):
             return ast.Compare(e.args[0], [ast.NotEq()], [ast.Constant(0)])
         if isinstance(e, ast.Call) and isinstance(e.func, ast.Attribute) and e.func.attr == "join" and isinstance(e.func.value, ast.Constant) and e.func.value.value in (b"", "") \
